@@ -30,6 +30,18 @@ def strip_obs(case):
     return {"id": case["id"], "props": case["props"], "world": case["world"], "steps": steps}
 
 
+def rejections(v):
+    """Parse 'clause@step#k,clause@step#k' into a list."""
+    out = []
+    if not v["clause"]:
+        return out
+    for part in v["clause"].split(","):
+        body, _, k = part.rpartition("#")
+        clause, _, at = body.rpartition("@")
+        out.append({"clause": clause, "step": int(at), "kf": k})
+    return out
+
+
 def py_applicable_count(world, call):
     """Coverage statistics only (never a verdict): number of methods whose
     class-term signature admits the call."""
@@ -178,13 +190,12 @@ def run(prop, tier, seed, replay=None):
             ndrift += 1
             if ndrift <= 1:
                 rep.spec_drift(f"ResolveImpl does not predict the observation of case {cid} (first of possibly many)")
-        if v["clause"]:
-            clause, _, at = v["clause"].partition("@")
-            step = c["steps"][int(at) - 1] if at else None
+        for rej in rejections(v):
+            step = c["steps"][rej["step"] - 1]
             rep.rejected(
-                clause,
+                rej["clause"],
                 {"kind": "static_case", "world": c["world"], "step": step, "case_id": cid},
-                {"kf": v["flags"].get("kf")},
+                {"kf": rej["kf"] if prop != "C06" else v["flags"].get("kf")},
             )
     if ndrift > 1:
         rep.drift[-1] += f" [{ndrift} cases]"
